@@ -2,8 +2,8 @@
    Only statements and `exact`; proofs are in Proofs/C21.v and Proofs/C21_sched.v.
    Model/ChatQueue.v transcribes ChatState.UpdateFromMessage / AccumulateAckCount, the session
    chat and command handlers (consumeCommand, modifyCommand, forwardCommand, the unsigned
-   bypass) and the future chain of chatQueue.  [impl_run] is today's code, [spec_run] the code
-   with findings C21-1 and C21-2 repaired.  A ops = what the client acknowledged (sum of the
+   bypass) and the future chain of chatQueue.  [impl_run] is today's code (finding C21-1 repaired by commit f72099c, C21-2
+   still open), [spec_run] the code with both repaired, [prefix_run] the code before the C21-1 repair.  A ops = what the client acknowledged (sum of the
    offsets it sent), F ps = what the backend was told (explicit acknowledgements plus offsets
    carried by forwarded packets). *)
 From Coq Require Import List NArith Bool.
@@ -16,43 +16,43 @@ Open Scope N_scope.
    EVERY interleaving of the read loop with them (Base.Conc schedules), what has reached the
    backend is a prefix of the sequential output for the whole history, and its tagged packets
    (chat, commands) are a subsequence of the client's.  Holds for today's code and the repaired. *)
-Theorem order_preserved : forall fixed cfg ops nticks sched,
-  let q := final_state (Conc.run (q_threads fixed cfg ops nticks) sched q_init) in
-  q_visible fixed cfg q = firstn (q_nvis q) (out (run fixed cfg ops)) /\
-  subseq (bp_ids (q_visible fixed cfg q)) (op_ids ops) = true.
+Theorem order_preserved : forall f1 f2 cfg ops nticks sched,
+  let q := final_state (Conc.run (q_threads f1 f2 cfg ops nticks) sched q_init) in
+  q_visible f1 f2 cfg q = firstn (q_nvis q) (out (run f1 f2 cfg ops)) /\
+  subseq (bp_ids (q_visible f1 f2 cfg q)) (op_ids ops) = true.
 Proof. intros. apply visible_prefix. apply q_inv_all_schedules. Qed.
 Print Assumptions order_preserved.
 
 (* ... and once the client's packets are all in and the queue is idle, the backend has received
    exactly the sequential output - so the accounting theorems below speak about every schedule *)
-Theorem quiescent_output : forall fixed cfg ops nticks sched,
-  let q := final_state (Conc.run (q_threads fixed cfg ops nticks) sched q_init) in
+Theorem quiescent_output : forall f1 f2 cfg ops nticks sched,
+  let q := final_state (Conc.run (q_threads f1 f2 cfg ops nticks) sched q_init) in
   length (q_sent q) = length ops -> q_busy q = false ->
-  q_visible fixed cfg q = out (run fixed cfg ops).
+  q_visible f1 f2 cfg q = out (run f1 f2 cfg ops).
 Proof. intros. apply quiescent_complete; [apply q_inv_all_schedules|assumption|assumption]. Qed.
 Print Assumptions quiescent_output.
 
 (* sequential order statement (any history, both models) *)
-Theorem order_preserved_seq : forall fixed cfg ops,
-  subseq (bp_ids (out (run fixed cfg ops))) (op_ids ops) = true.
+Theorem order_preserved_seq : forall f1 f2 cfg ops,
+  subseq (bp_ids (out (run f1 f2 cfg ops))) (op_ids ops) = true.
 Proof. exact run_order. Qed.
 Print Assumptions order_preserved_seq.
 
 (* conservation, today's code: whatever the client acknowledged has reached the backend, is held
    back (fewer than 40), or was dropped by one of the two recorded defects *)
-Theorem acks_accounted : forall fixed cfg ops,
-  disc (run fixed cfg ops) = false ->
-  A ops = F (out (run fixed cfg ops)) + delayed (run fixed cfg ops)
-          + lost1 (run fixed cfg ops) + lost2 (run fixed cfg ops)
-  /\ delayed (run fixed cfg ops) < 40.
-Proof. intros fixed cfg ops H. exact (run_conserved fixed cfg ops H). Qed.
+Theorem acks_accounted : forall f1 f2 cfg ops,
+  disc (run f1 f2 cfg ops) = false ->
+  A ops = F (out (run f1 f2 cfg ops)) + delayed (run f1 f2 cfg ops)
+          + lost1 (run f1 f2 cfg ops) + lost2 (run f1 f2 cfg ops)
+  /\ delayed (run f1 f2 cfg ops) < 40.
+Proof. intros f1 f2 cfg ops H. exact (run_conserved f1 f2 cfg ops H). Qed.
 Print Assumptions acks_accounted.
 
 (* "never exceeds what the client acknowledged": today's code, every history *)
 Theorem F_le_A : forall cfg ops,
   disc (impl_run cfg ops) = false -> F (out (impl_run cfg ops)) <= A ops.
 Proof.
-  intros cfg ops H. destruct (run_conserved false cfg ops H) as [Ha _]. unfold impl_run.
+  intros cfg ops H. destruct (run_conserved true false cfg ops H) as [Ha _]. unfold impl_run.
   rewrite Ha. rewrite <- !N.add_assoc. apply N.le_add_r.
 Qed.
 Print Assumptions F_le_A.
@@ -66,17 +66,17 @@ Proof. exact spec_conserved. Qed.
 Print Assumptions lag_lt_40.
 
 Theorem impl_eq_spec_off_trigger : forall cfg ops,
-  lost1 (impl_run cfg ops) = 0 -> hit2 (impl_run cfg ops) = false -> impl_run cfg ops = spec_run cfg ops.
+  hit2 (impl_run cfg ops) = false -> impl_run cfg ops = spec_run cfg ops.
 Proof. exact impl_eq_spec_lemma. Qed.
 Print Assumptions impl_eq_spec_off_trigger.
 
 (* "catches up completely with the next forwarded packet that carries a last-seen update":
    right after a chat message or session command has been processed nothing is held; what is
    missing from F is exactly what the two defects dropped (zero for the repaired code) *)
-Theorem catch_up : forall fixed cfg ops x,
-  carries_update x = true -> disc (run fixed cfg (ops ++ [x])) = false ->
-  A (ops ++ [x]) = F (out (run fixed cfg (ops ++ [x])))
-                   + lost1 (run fixed cfg (ops ++ [x])) + lost2 (run fixed cfg (ops ++ [x])).
+Theorem catch_up : forall f1 f2 cfg ops x,
+  carries_update x = true -> disc (run f1 f2 cfg (ops ++ [x])) = false ->
+  A (ops ++ [x]) = F (out (run f1 f2 cfg (ops ++ [x])))
+                   + lost1 (run f1 f2 cfg (ops ++ [x])) + lost2 (run f1 f2 cfg (ops ++ [x])).
 Proof. exact catch_up_gen. Qed.
 Print Assumptions catch_up.
 
@@ -84,7 +84,7 @@ Theorem catch_up_spec : forall cfg ops x,
   carries_update x = true -> disc (spec_run cfg (ops ++ [x])) = false ->
   A (ops ++ [x]) = F (out (spec_run cfg (ops ++ [x]))).
 Proof.
-  intros cfg ops x Hc Hd. pose proof (catch_up_gen true cfg ops x Hc Hd) as H.
+  intros cfg ops x Hc Hd. pose proof (catch_up_gen true true cfg ops x Hc Hd) as H.
   destruct (spec_no_loss cfg (ops ++ [x])) as [H1 H2]. unfold spec_run in *. rewrite H1, H2 in H.
   now rewrite !N.add_0_r in H.
 Qed.
@@ -92,11 +92,11 @@ Print Assumptions catch_up_spec.
 
 (* "unsigned commands neither carry nor flush held acknowledgements": one step with an
    UnsignedPlayerCommand, whatever its outcome, leaves the held count, F and the loss counters alone *)
-Theorem unsigned_neutral : forall fixed cfg s id o,
-  delayed (step fixed cfg s (UCmd id o)) = delayed s /\
-  F (out (step fixed cfg s (UCmd id o))) = F (out s) /\
-  disc (step fixed cfg s (UCmd id o)) = disc s /\
-  lost1 (step fixed cfg s (UCmd id o)) = lost1 s /\ lost2 (step fixed cfg s (UCmd id o)) = lost2 s.
+Theorem unsigned_neutral : forall f1 f2 cfg s id o,
+  delayed (step f1 f2 cfg s (UCmd id o)) = delayed s /\
+  F (out (step f1 f2 cfg s (UCmd id o))) = F (out s) /\
+  disc (step f1 f2 cfg s (UCmd id o)) = disc s /\
+  lost1 (step f1 f2 cfg s (UCmd id o)) = lost1 s /\ lost2 (step f1 f2 cfg s (UCmd id o)) = lost2 s.
 Proof. exact unsigned_neutral_lemma. Qed.
 Print Assumptions unsigned_neutral.
 
@@ -108,20 +108,35 @@ Theorem C21_spec_holds : forall cfg ops, NoDup (op_ids ops) ->
 Proof. exact spec_holds_lemma. Qed.
 Print Assumptions C21_spec_holds.
 
-(* finding C21-1 (catch_up refuted): 3 held acknowledgements + a signed command with offset 2 that
-   the event denies, ForceKeyAuthentication off: the backend is told nothing, nothing is held, the
-   next chat message carries offset 0 - five acknowledgements are gone for good *)
-Theorem catch_up_refuted_signed_consumed : exists cfg ops,
-  c_fka cfg = false /\ disc (impl_run cfg ops) = false /\ delayed (impl_run cfg ops) = 0 /\
-  A ops = 5 /\ F (out (impl_run cfg ops)) = 0 /\ lost1 (impl_run cfg ops) = 5 /\
-  holds_C21 ops (out (impl_run cfg ops)) (delayed (impl_run cfg ops)) false = false.
+(* since the C21-1 repair today's code drops nothing on the consumed-signed-command path: the only
+   loss term left is C21-2's *)
+Theorem impl_loses_only_by_C21_2 : forall cfg ops,
+  disc (impl_run cfg ops) = false ->
+  A ops = F (out (impl_run cfg ops)) + delayed (impl_run cfg ops) + lost2 (impl_run cfg ops)
+  /\ delayed (impl_run cfg ops) < 40.
+Proof.
+  intros cfg ops H. destruct (run_conserved true false cfg ops H) as [Ha Hl]. unfold impl_run in *.
+  rewrite (fix1_no_loss1 false cfg ops) in Ha. rewrite N.add_0_r in Ha. split; [exact Ha|exact Hl].
+Qed.
+Print Assumptions impl_loses_only_by_C21_2.
+
+(* finding C21-1, fixed by commit f72099c - a fact about the model of the code BEFORE that repair:
+   3 held acknowledgements + a signed command with offset 2 that the event denies,
+   ForceKeyAuthentication off: the backend is told nothing, nothing is held, the next chat message
+   carries offset 0 - five acknowledgements are gone for good.  Today's model sends them. *)
+Theorem catch_up_refuted_signed_consumed_before_fix : exists cfg ops,
+  c_fka cfg = false /\ disc (prefix_run cfg ops) = false /\ delayed (prefix_run cfg ops) = 0 /\
+  A ops = 5 /\ F (out (prefix_run cfg ops)) = 0 /\ lost1 (prefix_run cfg ops) = 5 /\
+  holds_C21 ops (out (prefix_run cfg ops)) (delayed (prefix_run cfg ops)) false = false /\
+  out (impl_run cfg ops) = [PAck 5; PChat 2 0] /\
+  holds_C21 ops (out (impl_run cfg ops)) (delayed (impl_run cfg ops)) false = true.
 Proof.
   exists cfg_off, w1. destruct refuted_1 as (H1 & H2 & H3 & H4 & H5 & H6 & H7).
-  repeat split; assumption.
+  repeat split; try assumption; vm_compute; reflexivity.
 Qed.
-Print Assumptions catch_up_refuted_signed_consumed.
+Print Assumptions catch_up_refuted_signed_consumed_before_fix.
 
-(* finding C21-2: 3 held acknowledgements + a command with offset 2 that the event rewrites: the
+(* finding C21-2 (open): 3 held acknowledgements + a command with offset 2 that the event rewrites: the
    rebuilt command carries offset 0 *)
 Theorem catch_up_refuted_rewritten : exists cfg ops,
   disc (impl_run cfg ops) = false /\ delayed (impl_run cfg ops) = 0 /\
